@@ -16,6 +16,7 @@ import (
 	"regexp"
 	"runtime"
 	"runtime/pprof"
+	"sort"
 	"strings"
 	"sync"
 
@@ -282,10 +283,41 @@ func (p *program) loadProgram() error {
 		Tests: true,
 		Fset:  p.fset,
 	}
-	pkgs, err := pkgload.LoadPackages(&cfg, p.packages)
+	all, err := packages.Load(&cfg, p.packages...)
 	if err != nil {
 		log.Fatalf("load packages: %v", err)
 	}
+	// A target without any file to look at (missing directory, directory without Go files, pattern
+	// without a match, "go list" giving up) must not pass for a clean run.
+	if len(all) == 0 {
+		return fmt.Errorf("%q matched no packages", p.packages)
+	}
+	for _, pkg := range all {
+		// pkgload passes over packages without a name.
+		if pkg.Name != "" && (len(pkg.GoFiles) != 0 || len(pkg.CompiledGoFiles) != 0) {
+			continue
+		}
+		if len(pkg.Errors) != 0 {
+			return fmt.Errorf("%s: %v", pkg.ID, pkg.Errors[0])
+		}
+		if pkg.Name == "" {
+			return fmt.Errorf("%s: nothing to check", pkg.ID)
+		}
+	}
+	// The selection pkgload.LoadPackages makes: external tests, and tests in preference to the base package.
+	var pkgs []*packages.Package
+	pkgload.VisitUnits(all, func(u *pkgload.Unit) {
+		if u.ExternalTest != nil {
+			pkgs = append(pkgs, u.ExternalTest)
+		}
+		switch {
+		case u.Test != nil:
+			pkgs = append(pkgs, u.Test)
+		case u.Base != nil:
+			pkgs = append(pkgs, u.Base)
+		}
+	})
+	sort.SliceStable(pkgs, func(i, j int) bool { return pkgs[i].PkgPath < pkgs[j].PkgPath })
 
 	p.loadedPackages = pkgs
 	// The packages are loaded for the target platform (GOARCH), which may differ from the host's.
